@@ -3,6 +3,7 @@ package main
 import (
 	"fmt"
 	"go/ast"
+	"go/constant"
 	"go/token"
 	"go/types"
 	"os"
@@ -52,6 +53,61 @@ func callArgFor(call *ast.CallExpr, idx int) ast.Expr {
 		return call.Args[idx]
 	}
 	return nil
+}
+
+// nonLeafByKindParam: the tag of x equals a parameter of the kind type of helper u (the helper
+// published nodeRef{pointer: ptr, tag: kind} through x), and every call site passes a constant
+// inner-node kind for it.
+func (c *Ctx) nonLeafByKindParam(u *FuncUnit, fs *FactSet, x ast.Expr) bool {
+	m := c.m
+	info := m.Info
+	if u == nil || u.Lit != nil || u.Decl == nil || m.KindType == nil {
+		return false
+	}
+	want := fs.canonTag(x)
+	var pid *ast.Ident
+	fs.eqFacts(func(l, r string, val bool, f *Fact) {
+		if !val || pid != nil {
+			return
+		}
+		var other ast.Expr
+		switch want {
+		case l:
+			other = f.R
+		case r:
+			other = f.L
+		default:
+			return
+		}
+		if id, ok := ast.Unparen(other).(*ast.Ident); ok && m.paramIndex(u, id) >= 0 {
+			if v := identVar(info, id); v != nil && types.Identical(v.Type(), m.KindType) && !assignedAnywhere(info, u.Body, v) {
+				pid = id
+			}
+		}
+	})
+	if pid == nil {
+		return false
+	}
+	pi := m.paramIndex(u, pid)
+	sites := c.callSitesOf(u)
+	if len(sites) == 0 {
+		return false
+	}
+	for _, s := range sites {
+		a := argFor(s.call, pi)
+		if a == nil {
+			return false
+		}
+		tv, ok := info.Types[a]
+		if !ok || tv.Value == nil {
+			return false
+		}
+		k, exact := constant.Int64Val(tv.Value)
+		if !exact || k == m.LeafKind.Value || m.kindByValue(k) == nil {
+			return false
+		}
+	}
+	return true
 }
 
 func (c *Ctx) nonLeaf(fs *FactSet, x ast.Expr) bool {
@@ -136,7 +192,7 @@ func ruleR06R07(c *Ctx) {
 						return
 					}
 					idx, ok := byVar[v]
-					if !ok || c.nonLeaf(fs, x) {
+					if !ok || c.nonLeaf(fs, x) || c.nonLeafByKindParam(u, fs, x) {
 						return
 					}
 					k := reqKey{u.Obj, idx}
@@ -314,6 +370,10 @@ func ruleR06R07(c *Ctx) {
 					switch {
 					case c.nonLeaf(fs, sel.X):
 						c.r.ok("R06", key, m.pos(x.Pos()), "under the fact tag != leaf", props...)
+					case c.nonLeafByKindParam(u, fs, sel.X):
+						c.r.ok("R06", key, m.pos(x.Pos()), "the slot was just given the kind parameter of "+u.Name+" as its tag, and every call site passes a constant inner-node kind", props...)
+					case c.nonLeafAtCallSites(u, fs, sel.X) != "" && !isParam:
+						c.r.ok("R06", key, m.pos(x.Pos()), c.nonLeafAtCallSites(u, fs, sel.X), props...)
 					case isParam && v != nil:
 						c.r.ok("R06", key, m.pos(x.Pos()), "parameter: imposed as a precondition on every call site", props...)
 					default:
@@ -366,6 +426,39 @@ func ruleR06R07(c *Ctx) {
 				// ---- (v) nodeRef literals pair the pointer's static type with the tag
 				tag, ptr, ok := c.refLitTag(x)
 				if !ok || ptr == nil {
+					// nodeRef{pointer: ptr, tag: kind} with both operands parameters of a publishing
+					// helper: kind and layout are paired at every call site
+					if te, pe, isLit := c.refLitTagAny(x); isLit && te != nil && pe != nil && u.Lit == nil && u.Decl != nil {
+						tid, ok1 := ast.Unparen(te).(*ast.Ident)
+						pid, ok2 := ast.Unparen(pe).(*ast.Ident)
+						if ok1 && ok2 && m.paramIndex(u, tid) >= 0 && m.paramIndex(u, pid) >= 0 {
+							nLit++
+							key := fmt.Sprintf("%s literal nodeRef{%s, %s}", u.Name, pid.Name, tid.Name)
+							badAt, n := "", 0
+							for _, s := range c.callSitesOf(u) {
+								ta, pa := argFor(s.call, m.paramIndex(u, tid)), argFor(s.call, m.paramIndex(u, pid))
+								if ta == nil || pa == nil {
+									continue
+								}
+								n++
+								tv, has := info.Types[ta]
+								want := c.pointeeKind(s.u, pa)
+								if !has || tv.Value == nil || want == -1 {
+									badAt = m.pos(s.call.Pos()) + ": kind or layout of the published node cannot be read at this call"
+									continue
+								}
+								if k, _ := constant.Int64Val(tv.Value); k != want {
+									badAt = fmt.Sprintf("%s: pointer to a %s is published with tag %s", m.pos(s.call.Pos()), m.KindName[want], m.KindName[k])
+								}
+							}
+							switch {
+							case badAt != "":
+								c.r.bad("R06", key, m.pos(x.Pos()), badAt, props...)
+							case n > 0:
+								c.r.ok("R06", key, m.pos(x.Pos()), fmt.Sprintf("at each of the %d call sites the constant kind is the kind of the layout behind the pointer", n), props...)
+							}
+						}
+					}
 					return
 				}
 				nLit++
@@ -987,47 +1080,15 @@ func (c *Ctx) kindByElimination(u *FuncUnit, fs *FactSet, ref ast.Expr, want int
 	if !ok || u.Lit != nil || u.Decl == nil {
 		return ""
 	}
-	if m.paramIndex(u, id) < 0 {
-		// a copy of what a slot parameter points at, taken before anything else happens
-		// (old := *ref as the first statements of a helper): what the callers know about *ref
-		v := identVar(info, id)
-		def, live := fs.aliasOf(v)
-		if !live {
+	if m.paramIndex(u, id) == -1 {
+		pid := c.aliasedSlotParam(u, fs, id)
+		if pid == nil {
 			return ""
-		}
-		st, ok := ast.Unparen(def).(*ast.StarExpr)
-		if !ok {
-			return ""
-		}
-		pid, ok := ast.Unparen(st.X).(*ast.Ident)
-		if !ok || m.paramIndex(u, pid) < 0 {
-			return ""
-		}
-		for _, s := range u.Body.List {
-			as, isDef := s.(*ast.AssignStmt)
-			if isDef && as.Tok == token.DEFINE && len(as.Lhs) == 1 && identVar(info, as.Lhs[0]) == v {
-				break
-			}
-			quiet := isDef && as.Tok == token.DEFINE
-			if _, isDecl := s.(*ast.DeclStmt); isDecl {
-				quiet = true
-			}
-			ast.Inspect(s, func(n ast.Node) bool {
-				if call, ok := n.(*ast.CallExpr); ok && !isConversion(info, call) {
-					if bi, ok := ast.Unparen(call.Fun).(*ast.Ident); !ok || (bi.Name != "len" && bi.Name != "cap" && bi.Name != "min" && bi.Name != "max") {
-						quiet = false
-					}
-				}
-				return true
-			})
-			if !quiet {
-				return ""
-			}
 		}
 		id = pid
 	}
 	pi := m.paramIndex(u, id)
-	if pi < 0 || assignedAnywhere(info, u.Body, identVar(info, id)) {
+	if pi == -1 || assignedAnywhere(info, u.Body, identVar(info, id)) {
 		return ""
 	}
 	sites := c.callSitesOf(u)
@@ -1145,4 +1206,93 @@ func (c *Ctx) poolAccessor(u *FuncUnit, index ast.Expr, asserted ast.Expr) (why,
 		}
 	}
 	return fmt.Sprintf("generic accessor: at each of its %d call sites the constant kind is the kind of the layout type argument", len(sites)), "", true
+}
+
+// aliasedSlotParam: id is a local that holds a copy of what a slot parameter points at, taken
+// before anything else happens (old := *ref as the first statements of a helper); returns the
+// parameter's identifier, nil otherwise.
+func (c *Ctx) aliasedSlotParam(u *FuncUnit, fs *FactSet, id *ast.Ident) *ast.Ident {
+	m := c.m
+	info := m.Info
+	if u.Lit != nil || u.Decl == nil {
+		return nil
+	}
+	v := identVar(info, id)
+	if v == nil {
+		return nil
+	}
+	def, live := fs.aliasOf(v)
+	if !live {
+		return nil
+	}
+	st, ok := ast.Unparen(def).(*ast.StarExpr)
+	if !ok {
+		return nil
+	}
+	pid, ok := ast.Unparen(st.X).(*ast.Ident)
+	if !ok || m.paramIndex(u, pid) == -1 {
+		return nil
+	}
+	for _, s := range u.Body.List {
+		as, isDef := s.(*ast.AssignStmt)
+		if isDef && as.Tok == token.DEFINE && len(as.Lhs) == 1 && identVar(info, as.Lhs[0]) == v {
+			break
+		}
+		quiet := isDef && as.Tok == token.DEFINE
+		if _, isDecl := s.(*ast.DeclStmt); isDecl {
+			quiet = true
+		}
+		ast.Inspect(s, func(n ast.Node) bool {
+			if call, ok := n.(*ast.CallExpr); ok && !isConversion(info, call) {
+				if bi, ok := ast.Unparen(call.Fun).(*ast.Ident); !ok || (bi.Name != "len" && bi.Name != "cap" && bi.Name != "min" && bi.Name != "max") {
+					quiet = false
+				}
+			}
+			return true
+		})
+		if !quiet {
+			return nil
+		}
+	}
+	return pid
+}
+
+// nonLeafAtCallSites: x is (a copy of the content of) a slot parameter of helper u, and every call
+// site knows that the slot does not hold a leaf.
+func (c *Ctx) nonLeafAtCallSites(u *FuncUnit, fs *FactSet, x ast.Expr) string {
+	m := c.m
+	info := m.Info
+	id, ok := ast.Unparen(x).(*ast.Ident)
+	if !ok || u.Lit != nil || u.Decl == nil {
+		return ""
+	}
+	if m.paramIndex(u, id) == -1 {
+		if id = c.aliasedSlotParam(u, fs, id); id == nil {
+			return ""
+		}
+	}
+	pi := m.paramIndex(u, id)
+	if pi == -1 || assignedAnywhere(info, u.Body, identVar(info, id)) {
+		return ""
+	}
+	sites := c.callSitesOf(u)
+	if len(sites) == 0 {
+		return ""
+	}
+	for _, s := range sites {
+		a := argFor(s.call, pi)
+		if a == nil {
+			return ""
+		}
+		var at *FactSet
+		c.e.flow(s.u).walk(func(n ast.Node, f *FactSet, stmt ast.Node, b *cfg.Block) {
+			if n == ast.Node(s.call) && at == nil {
+				at = f.clone()
+			}
+		})
+		if at == nil || !c.nonLeaf(at, a) {
+			return ""
+		}
+	}
+	return fmt.Sprintf("copy of the content of slot parameter %s: each of the %d call sites of %s knows that the slot holds an inner node", id.Name, len(sites), u.Name)
 }
